@@ -1130,8 +1130,17 @@ def judge(spec, sched, reported_buffers=None, reported_indicators=None, from_mod
             else:
                 ch = rec.get("chosen") or {}
                 for w, c in ch.items():
-                    if c:
-                        p = v.wspec[w].get("productivity") if w in v.wspec else (v.cspec[w].get("productivity") if w in v.cspec else None)
+                    if not c:
+                        continue
+                    if w in v.cspec:
+                        # a cumulative worker chosen through a selection works like a directly required one: the task
+                        # occupies one or more of its elementary workers, each carrying a share of the productivity
+                        cs = v.cspec[w]
+                        p = 1 if cs.get("productivity") is None else cs["productivity"]
+                        lo += min(lane_shares(p, cs["size"])) * (e - s)
+                        hi += p * (e - s)
+                    else:
+                        p = v.wspec[w].get("productivity") if w in v.wspec else None
                         p = 1 if p is None else p
                         lo += p * (e - s)
                         hi += p * (e - s)
